@@ -47,8 +47,8 @@ func C10(env *Env) {
 		// option flags (trace partitioning): the collateral objects exist exactly
 		// when GetCollateral is set, and a join would lose that correlation
 		optBase := map[string]string{
-			"verify.TdxQuote":           "$verify.TdxQuote#1:options",
-			"rtmr.ParseCcelWithTdQuote": "$rtmr.ParseCcelWithTdQuote#3:opts.Verification",
+			"verify.TdxQuote":           "$verify.TdxQuote#1",
+			"rtmr.ParseCcelWithTdQuote": "$rtmr.ParseCcelWithTdQuote#3.Verification",
 		}[load.FuncName(fn)]
 		// the Raw* entry points add only the parser in front of an entry point that
 		// is itself analysed for every message: the inner entry is an atom there
